@@ -1,6 +1,10 @@
 package proto
 
-import "github.com/go-faster/errors"
+import (
+	"strings"
+
+	"github.com/go-faster/errors"
+)
 
 // ColTuple is Tuple column.
 //
@@ -107,11 +111,29 @@ func (c ColTuple) Prepare() error {
 }
 
 func (c ColTuple) Infer(t ColumnType) error {
-	for _, v := range c {
-		if s, ok := v.(Inferable); ok {
-			if err := s.Infer(t); err != nil {
-				return errors.Wrap(err, "infer")
-			}
+	// Every element infers from its own type, i.e. from the i-th
+	// element of Tuple(T1, T2, ...), optionally named: Tuple(a T1, b T2).
+	var types []string
+	for rest, more := string(t.Elem()), true; more; {
+		var elem string
+		elem, rest, more = cutTypes(rest)
+		types = append(types, strings.TrimSpace(elem))
+	}
+	if len(types) != len(c) {
+		// Not a tuple of this shape, leaving to type check.
+		return nil
+	}
+	for i, v := range c {
+		s, ok := v.(Inferable)
+		if !ok {
+			continue
+		}
+		elem := types[i]
+		if n, ok := v.(interface{ ColumnName() string }); ok {
+			elem = strings.TrimSpace(strings.TrimPrefix(elem, n.ColumnName()+" "))
+		}
+		if err := s.Infer(ColumnType(elem)); err != nil {
+			return errors.Wrapf(err, "infer [%d]", i)
 		}
 	}
 	return nil
